@@ -10,6 +10,7 @@ let () =
     | "C02" -> C02.run_case
     | "C13" -> C13.run_c13
     | "C03" -> C13.run_c03
+    | "C07" -> C07.run_case
     | "C09" -> C13.run_c09
     | "C11" -> C13.run_c11
     | _ -> prerr_endline ("unknown property " ^ prop); exit 2 in
